@@ -1,63 +1,431 @@
-//! probe (temporary)
+//! C18: RDF/XML serialisation (sophia_xml::serializer::RdfXmlSerializer over rio_xml's formatter)
+//! round-trips through sophia_xml::parser::RdfXmlParser (rio_xml's parser) and through an
+//! independent strict reference reader (XML 1.0 + Namespaces + the RDF/XML rules for the
+//! vocabulary the formatter uses), against the Coq model C18/Model.v.
 use sophia_api::prelude::*;
 use sophia_api::serializer::{Stringifier, TripleSerializer};
 use sophia_api::source::TripleSource;
+use sophia_api::term::SimpleTerm;
+use sophia_inmem::graph::FastGraph;
 use sophia_isomorphism::isomorphic_graphs;
-use sophia_xml::parser::RdfXmlParser;
 use sophia_xml::serializer::{RdfXmlConfig, RdfXmlSerializer};
+use std::collections::HashMap;
+use std::panic::{AssertUnwindSafe, catch_unwind};
+use std::sync::atomic::{AtomicBool, Ordering};
 use verif_harness::*;
 
-fn rt(g: &Vec<[ST; 3]>, ind: usize) {
-    let mut ser = RdfXmlSerializer::new_stringifier_with_config(RdfXmlConfig::new().with_indentation(ind));
-    let r = std::panic::catch_unwind(std::panic::AssertUnwindSafe(|| ser.serialize_triples(g.triples()).map(|s| s.to_string())));
-    match r {
-        Ok(Ok(doc)) => {
-            println!("  doc[{ind}] = {doc:?}");
-            let back: Result<Vec<[ST; 3]>, _> = sophia_xml::parser::parse_str(&doc).collect_triples();
-            match back {
-                Ok(b) => println!("  back = {:?}\n  iso = {:?}", b, isomorphic_graphs(g, &b)),
-                Err(e) => println!("  parse error: {e}"),
-            }
-        }
-        Ok(Err(e)) => println!("  ser error: {e}"),
-        Err(_) => println!("  PANIC"),
-    }
+type T3 = [ST; 3];
+static QUIET: AtomicBool = AtomicBool::new(false);
+fn quiet<R>(f: impl FnOnce() -> R) -> std::thread::Result<R> {
+    QUIET.store(true, Ordering::SeqCst); let r = catch_unwind(AssertUnwindSafe(f)); QUIET.store(false, Ordering::SeqCst); r
 }
 
-fn main() {
-    let s = iri("http://e/s");
-    let p = iri("http://e/p");
-    let lits = [" ", "\n", "", " a ", "\na\n", "a\rb", "\r", "a\r\nb", "\t", "a\tb", "<&>\"'", "]]>", "\u{1}", "\u{0}", "\u{fffe}", "\u{1F600}", "&#32;", "&amp;"];
-    for l in lits {
-        println!("LIT {l:?}");
-        for ind in [0, 2] {
-            rt(&vec![[s.clone(), p.clone(), lit_dt(l, &format!("{XSD}string"))]], ind);
+// ---------------------------------------------------------------------------------------------
+// character classes (XML 1.0 fifth edition), written independently of the Coq model
+// ---------------------------------------------------------------------------------------------
+fn is_xml_char(c: char) -> bool { matches!(c, '\t' | '\n' | '\r' | '\u{20}'..='\u{D7FF}' | '\u{E000}'..='\u{FFFD}' | '\u{10000}'..='\u{10FFFF}') }
+fn is_name_start(c: char) -> bool {
+    matches!(c, ':' | 'A'..='Z' | '_' | 'a'..='z' | '\u{C0}'..='\u{D6}' | '\u{D8}'..='\u{F6}' | '\u{F8}'..='\u{2FF}' | '\u{370}'..='\u{37D}' | '\u{37F}'..='\u{1FFF}'
+        | '\u{200C}'..='\u{200D}' | '\u{2070}'..='\u{218F}' | '\u{2C00}'..='\u{2FEF}' | '\u{3001}'..='\u{D7FF}' | '\u{F900}'..='\u{FDCF}' | '\u{FDF0}'..='\u{FFFD}' | '\u{10000}'..='\u{EFFFF}')
+}
+fn is_name_char(c: char) -> bool { is_name_start(c) || matches!(c, '-' | '.' | '0'..='9' | '\u{B7}' | '\u{300}'..='\u{36F}' | '\u{203F}'..='\u{2040}') }
+fn is_ncname(s: &str) -> bool { let mut it = s.chars(); match it.next() { Some(c) if is_name_start(c) && c != ':' => it.all(|c| is_name_char(c) && c != ':'), _ => false } }
+fn is_xml_ws(c: char) -> bool { matches!(c, ' ' | '\t' | '\n' | '\r') }
+/// the longest NCName suffix of an IRI ("" if none): what a QName local part can be
+fn ncname_suffix(iri: &str) -> &str {
+    let mut best = "";
+    for (i, _) in iri.char_indices() { if is_ncname(&iri[i..]) { best = &iri[i..]; break; } }
+    best
+}
+const RESERVED: [&str; 12] = ["about", "aboutEach", "aboutEachPrefix", "bagID", "datatype", "ID", "li", "nodeID", "parseType", "RDF", "resource", "Description"];
+
+// ---------------------------------------------------------------------------------------------
+// reference reader: a strict XML 1.0 + Namespaces parser for elements / attributes / character
+// data / references (no DTD, comments, PIs, CDATA: Err("unsupported ...")), then the RDF/XML
+// rules for rdf:RDF > rdf:Description(rdf:about|rdf:nodeID) > property elements
+// ---------------------------------------------------------------------------------------------
+#[derive(Debug)]
+enum Node { Elem(Elem), Text(String) }
+#[derive(Debug)]
+struct Elem { ns: String, local: String, attrs: Vec<(String, String, String)>, children: Vec<Node> }
+struct Px<'a> { s: &'a [char], i: usize }
+const XML_NS: &str = "http://www.w3.org/XML/1998/namespace";
+impl<'a> Px<'a> {
+    fn peek(&self) -> Option<char> { self.s.get(self.i).copied() }
+    fn starts(&self, t: &str) -> bool { let t: Vec<char> = t.chars().collect(); self.s[self.i..].starts_with(&t) }
+    fn skip_ws(&mut self) -> bool { let st = self.i; while self.peek().map_or(false, is_xml_ws) { self.i += 1; } self.i > st }
+    fn name(&mut self) -> Result<String, String> {
+        let st = self.i;
+        match self.peek() { Some(c) if is_name_start(c) => self.i += 1, _ => return Err("name expected".into()) }
+        while self.peek().map_or(false, is_name_char) { self.i += 1; }
+        Ok(self.s[st..self.i].iter().collect())
+    }
+    fn reference(&mut self) -> Result<char, String> { // after '&'
+        let st = self.i;
+        while let Some(c) = self.peek() { if c == ';' { break; } if c == '&' || c == '<' { return Err("unterminated reference".into()); } self.i += 1; }
+        if self.peek() != Some(';') { return Err("unterminated reference".into()); }
+        let name: String = self.s[st..self.i].iter().collect(); self.i += 1;
+        let c = match name.as_str() {
+            "lt" => '<', "gt" => '>', "amp" => '&', "apos" => '\'', "quot" => '"',
+            n if n.starts_with("#x") => { let h = &n[2..]; if h.is_empty() || !h.chars().all(|c| c.is_ascii_hexdigit()) { return Err("bad char ref".into()); } u32::from_str_radix(h, 16).ok().and_then(char::from_u32).ok_or("bad char ref")? }
+            n if n.starts_with('#') => { let d = &n[1..]; if d.is_empty() || !d.chars().all(|c| c.is_ascii_digit()) { return Err("bad char ref".into()); } d.parse::<u32>().ok().and_then(char::from_u32).ok_or("bad char ref")? }
+            _ => return Err(format!("unknown entity {name}")),
+        };
+        if name.starts_with('#') && !is_xml_char(c) { return Err("char ref to a non-Char".into()); }
+        Ok(c)
+    }
+    fn attr_value(&mut self) -> Result<String, String> {
+        let q = match self.peek() { Some(c @ ('"' | '\'')) => c, _ => return Err("quote expected".into()) }; self.i += 1;
+        let mut out = String::new();
+        loop {
+            match self.peek() {
+                None => return Err("unterminated attribute".into()),
+                Some(c) if c == q => { self.i += 1; return Ok(out); }
+                Some('<') => return Err("< in attribute value".into()),
+                Some('&') => { self.i += 1; out.push(self.reference()?); }
+                Some(c) if is_xml_ws(c) => { self.i += 1; out.push(' '); } // 3.3.3 (input is already 2.11-normalised)
+                Some(c) => { self.i += 1; out.push(c); }
+            }
         }
     }
-    println!("XMLLiteral");
-    rt(&vec![[s.clone(), p.clone(), lit_dt("<b>x</b> &amp;", &format!("{RDF}XMLLiteral"))]], 0);
-    println!("lang");
-    rt(&vec![[s.clone(), p.clone(), lit_lang("x", "EN-us")]], 0);
-    rt(&vec![[s.clone(), p.clone(), lit_lang(" ", "en")]], 0);
-    println!("bnodes");
-    rt(&vec![[bnode("b1"), p.clone(), bnode("0a")]], 0);
-    rt(&vec![[bnode("0"), p.clone(), bnode("b.c")]], 0);
-    rt(&vec![[bnode("a-b"), p.clone(), bnode("riog00000001")]], 2);
-    println!("preds");
-    for pi in ["http://e/", "http://e/123", "urn:1", "http://e/a%20b", "http://e/a:b", "http://e/p?x=1&y='2'", "http://e/-a", "http://e/1a", "http://e/.a", "http://e/é", "http://e/a.b", "http://e/a-", "http://e/ns#",
-        &format!("{RDF}li"), &format!("{RDF}Description"), &format!("{RDF}about"), &format!("{RDF}type"), &format!("{RDF}_1"), "http://www.w3.org/2000/xmlns/a", "http://www.w3.org/XML/1998/namespace#a", "http://e/xmlns"] {
-        println!("PRED {pi}");
-        rt(&vec![[s.clone(), iri(pi), lit_dt("v", &format!("{XSD}string"))]], 0);
+    fn element(&mut self, scope: &HashMap<String, String>) -> Result<Elem, String> {
+        if self.peek() != Some('<') { return Err("< expected".into()); } self.i += 1;
+        let qn = self.name()?;
+        let mut raw: Vec<(String, String)> = vec![];
+        let empty;
+        loop {
+            let ws = self.skip_ws();
+            if self.starts("/>") { self.i += 2; empty = true; break; }
+            if self.peek() == Some('>') { self.i += 1; empty = false; break; }
+            if !ws { return Err("whitespace expected before attribute".into()); }
+            let an = self.name()?; self.skip_ws();
+            if self.peek() != Some('=') { return Err("= expected".into()); } self.i += 1; self.skip_ws();
+            let v = self.attr_value()?;
+            if raw.iter().any(|(k, _)| *k == an) { return Err("duplicate attribute".into()); }
+            raw.push((an, v));
+        }
+        let mut scope = scope.clone();
+        for (k, v) in &raw {
+            if k == "xmlns" { scope.insert(String::new(), v.clone()); }
+            else if let Some(p) = k.strip_prefix("xmlns:") { if !is_ncname(p) || v.is_empty() || p == "xmlns" { return Err("bad namespace declaration".into()); } scope.insert(p.to_string(), v.clone()); }
+        }
+        let split = |qn: &str, is_attr: bool| -> Result<(String, String), String> {
+            match qn.split_once(':') {
+                Some((p, l)) => { if !is_ncname(p) || !is_ncname(l) { return Err(format!("{qn:?} is not a QName")); }
+                    if p == "xml" { return Ok((XML_NS.into(), l.into())); }
+                    scope.get(p).cloned().map(|ns| (ns, l.to_string())).ok_or(format!("unbound prefix {p}")) }
+                None => { if !is_ncname(qn) { return Err(format!("{qn:?} is not a QName")); }
+                    Ok((if is_attr { String::new() } else { scope.get("").cloned().unwrap_or_default() }, qn.to_string())) }
+            }
+        };
+        let (ns, local) = split(&qn, false)?;
+        let mut attrs = vec![];
+        for (k, v) in &raw { if k == "xmlns" || k.starts_with("xmlns:") { continue; } let (a, l) = split(k, true)?; attrs.push((a, l, v.clone())); }
+        let mut children = vec![];
+        if !empty {
+            let mut text = String::new();
+            loop {
+                match self.peek() {
+                    None => return Err("unexpected end of document".into()),
+                    Some('<') => {
+                        if self.starts("</") { break; }
+                        if self.starts("<!") || self.starts("<?") { return Err("unsupported markup".into()); }
+                        if !text.is_empty() { children.push(Node::Text(std::mem::take(&mut text))); }
+                        children.push(Node::Elem(self.element(&scope)?));
+                    }
+                    Some('&') => { self.i += 1; text.push(self.reference()?); }
+                    Some(_) => { if self.starts("]]>") { return Err("]]> in character data".into()); } text.push(self.peek().unwrap()); self.i += 1; }
+                }
+            }
+            if !text.is_empty() { children.push(Node::Text(text)); }
+            self.i += 2; let en = self.name()?; if en != qn { return Err("mismatched end tag".into()); } self.skip_ws();
+            if self.peek() != Some('>') { return Err("> expected".into()); } self.i += 1;
+        }
+        Ok(Elem { ns, local, attrs, children })
     }
-    println!("iri with & and '");
-    rt(&vec![[iri("http://e/s?a=1&b='2'"), p.clone(), iri("http://e/o?a=1&b='2'")], [iri("http://e/s?a=1&b='2'"), p.clone(), lit_dt("1", "http://e/dt?a&b'")]], 2);
-    println!("non-representable");
-    rt(&vec![[lit_dt("1", &format!("{XSD}string")), p.clone(), s.clone()], [s.clone(), bnode("b"), s.clone()], [s.clone(), p.clone(), var("v")], [triple(s.clone(), p.clone(), s.clone()), p.clone(), s.clone()], [s.clone(), p.clone(), s.clone()]], 0);
-    rt(&vec![[s.clone(), p.clone(), triple(s.clone(), p.clone(), s.clone())], [s.clone(), p.clone(), s.clone()]], 0);
-    rt(&vec![[s.clone(), p.clone(), s.clone()], [s.clone(), p.clone(), triple(s.clone(), p.clone(), s.clone())]], 0);
-    println!("multi");
-    rt(&vec![[s.clone(), p.clone(), lit_dt(" x ", &format!("{XSD}string"))], [s.clone(), iri("http://e/q"), bnode("b")], [bnode("b"), p.clone(), lit_lang("\n", "en")], [s.clone(), p.clone(), lit_dt("2", &format!("{XSD}integer"))]], 3);
-    println!("empty");
-    rt(&vec![], 0);
-    rt(&vec![], 4);
+}
+fn ref_parse_xml(doc: &str) -> Result<Elem, String> {
+    if let Some(c) = doc.chars().find(|c| !is_xml_char(*c)) { return Err(format!("U+{:04X} is not an XML Char", c as u32)); }
+    let norm = doc.replace("\r\n", "\n").replace('\r', "\n");
+    let chars: Vec<char> = norm.chars().collect();
+    let mut p = Px { s: &chars, i: 0 };
+    if p.starts("<?xml") { while !p.starts("?>") { if p.peek().is_none() { return Err("unterminated declaration".into()); } p.i += 1; } p.i += 2; }
+    p.skip_ws();
+    let root = p.element(&HashMap::new())?;
+    p.skip_ws();
+    if p.peek().is_some() { return Err("content after the root element".into()); }
+    Ok(root)
+}
+fn ref_read(doc: &str) -> Result<Vec<T3>, String> {
+    let root = ref_parse_xml(doc)?;
+    if root.ns != RDF || root.local != "RDF" { return Err("root is not rdf:RDF".into()); }
+    let mut out = vec![];
+    for n in &root.children {
+        let d = match n { Node::Text(t) => { if t.chars().all(is_xml_ws) { continue } else { return Err("text in rdf:RDF".into()) } } Node::Elem(e) => e };
+        if d.ns != RDF || d.local != "Description" { return Err("unsupported node element".into()); }
+        let about = d.attrs.iter().find(|a| a.0 == RDF && a.1 == "about"); let nid = d.attrs.iter().find(|a| a.0 == RDF && a.1 == "nodeID");
+        let subj = match (about, nid) { (Some(a), None) => iri(&a.2), (None, Some(b)) => { if !is_ncname(&b.2) { return Err("rdf:nodeID is not an NCName".into()); } bnode(&b.2) } _ => return Err("unsupported subject".into()) };
+        for (ns, l, v) in &d.attrs { // property attributes (used by the reader stream only)
+            if ns == RDF && (l == "about" || l == "nodeID") { continue; }
+            if ns.is_empty() || ns == RDF || ns == XML_NS { return Err("unsupported node element attribute".into()); }
+            out.push([subj.clone(), iri(&format!("{ns}{l}")), lit_dt(v, &format!("{XSD}string"))]);
+        }
+        let mut li = 0u64;
+        for pn in &d.children {
+            let pe = match pn { Node::Text(t) => { if t.chars().all(is_xml_ws) { continue } else { return Err("text in node element".into()) } } Node::Elem(e) => e };
+            if pe.ns.is_empty() { return Err("property element without namespace".into()); }
+            let mut piri = format!("{}{}", pe.ns, pe.local);
+            if piri == format!("{RDF}li") { li += 1; piri = format!("{RDF}_{li}"); }
+            else if pe.ns == RDF && RESERVED.contains(&pe.local.as_str()) { return Err(format!("{piri} is not a property element name")); }
+            let (mut res, mut nid, mut lang, mut dt) = (None, None, None, None);
+            for (a, l, v) in &pe.attrs {
+                match (a.as_str(), l.as_str()) { (RDF, "resource") => res = Some(v), (RDF, "nodeID") => nid = Some(v), (XML_NS, "lang") => lang = Some(v.to_ascii_lowercase()), (RDF, "datatype") => dt = Some(v), _ => return Err("unsupported property attribute".into()) }
+            }
+            let mut text = String::new();
+            for c in &pe.children { match c { Node::Text(t) => text.push_str(t), Node::Elem(_) => return Err("unsupported nested node element".into()) } }
+            let obj = match (res, nid) {
+                (Some(_), Some(_)) => return Err("both rdf:resource and rdf:nodeID".into()),
+                (Some(r), None) => { if !text.is_empty() { return Err("content in an empty property element".into()); } iri(r) }
+                (None, Some(b)) => { if !text.is_empty() { return Err("content in an empty property element".into()); } if !is_ncname(b) { return Err("rdf:nodeID is not an NCName".into()); } bnode(b) }
+                (None, None) => match (dt, &lang) { (Some(d), _) => lit_dt(&text, d), (None, Some(l)) => lit_lang(&text, l), (None, None) => lit_dt(&text, &format!("{XSD}string")) },
+            };
+            out.push([subj.clone(), iri(&piri), obj]);
+        }
+    }
+    Ok(out)
+}
+
+// ---------------------------------------------------------------------------------------------
+// the implementation under test
+// ---------------------------------------------------------------------------------------------
+enum Ser { Doc(String), Err(String), Panic }
+fn serialize(g: &Vec<T3>, ind: usize) -> Ser {
+    match quiet(|| { let mut ser = RdfXmlSerializer::new_stringifier_with_config(RdfXmlConfig::new().with_indentation(ind)); ser.serialize_triples(g.triples()).map(|s| s.to_string()).map_err(|e| e.to_string()) }) {
+        Ok(Ok(d)) => Ser::Doc(d), Ok(Err(e)) => Ser::Err(e), Err(_) => Ser::Panic,
+    }
+}
+fn rio_read(doc: &str) -> Result<Vec<T3>, String> {
+    match quiet(|| { let r: Result<Vec<T3>, _> = sophia_xml::parser::parse_str(doc).collect_triples(); r.map_err(|e| e.to_string()) }) { Ok(r) => r, Err(_) => Err("PANIC".into()) }
+}
+fn representable(t: &T3) -> bool {
+    matches!(t[0], SimpleTerm::Iri(_) | SimpleTerm::BlankNode(_)) && matches!(t[1], SimpleTerm::Iri(_))
+        && matches!(t[2], SimpleTerm::Iri(_) | SimpleTerm::BlankNode(_) | SimpleTerm::LiteralDatatype(..) | SimpleTerm::LiteralLanguage(..))
+}
+fn has_quoted(t: &T3) -> bool { t.iter().any(|x| matches!(x, SimpleTerm::Triple(_))) }
+fn iso(a: &[T3], b: &[T3]) -> bool {
+    let ga: FastGraph = a.iter().cloned().collect_triples_from(); let gb: FastGraph = b.iter().cloned().collect_triples_from();
+    isomorphic_graphs(&ga, &gb).unwrap_or(false)
+}
+trait CollectFrom { fn collect_triples_from(self) -> FastGraph; }
+impl<I: Iterator<Item = T3>> CollectFrom for I { fn collect_triples_from(self) -> FastGraph { let mut g = FastGraph::new(); for t in self { MutableGraph::insert(&mut g, &t[0], &t[1], &t[2]).unwrap(); } g } }
+fn lex_of(t: &ST) -> Option<String> { match t { SimpleTerm::LiteralDatatype(l, _) | SimpleTerm::LiteralLanguage(l, _) => Some(l.to_string()), _ => None } }
+fn bcp47_simple(tag: &str) -> bool { // the tags the generator treats as well-formed: language 2-3 or 5-8 letters or x-..., subtags of 2-8 alphanumerics, singletons followed by a subtag
+    let subs: Vec<&str> = tag.split('-').collect();
+    if subs[0].eq_ignore_ascii_case("x") { return subs.len() > 1 && subs[1..].iter().all(|s| (1..=8).contains(&s.len())); }
+    if !((2..=3).contains(&subs[0].len()) || (5..=8).contains(&subs[0].len())) || !subs[0].chars().all(|c| c.is_ascii_alphabetic()) { return false; }
+    let mut i = 1; while i < subs.len() { let s = subs[i]; if s.len() == 1 { if i + 1 >= subs.len() || !(2..=8).contains(&subs[i + 1].len()) { return false; } } else if !(2..=8).contains(&s.len()) { return false; } i += 1; }
+    true
+}
+
+// ---------------------------------------------------------------------------------------------
+// Coq printing
+// ---------------------------------------------------------------------------------------------
+fn c_t3(t: &T3) -> String { format!("({}, {}, {})", coq_term(&t[0]), coq_term(&t[1]), coq_term(&t[2])) }
+fn c_graph(g: &[T3]) -> String { coq_list(g.iter().map(c_t3)) }
+fn c_parse(r: &Result<Vec<T3>, String>) -> String { match r { Ok(g) => format!("(Some {})", c_graph(g)), Err(_) => "None".into() } }
+fn c_optstr(r: &Option<String>) -> String { match r { Some(s) => format!("(Some {})", coq_str(s)), None => "None".into() } }
+
+// ---------------------------------------------------------------------------------------------
+// generation
+// ---------------------------------------------------------------------------------------------
+#[derive(Clone, Copy, PartialEq, Debug)]
+enum Flavour { Clean, WsOnly, BnodeDigit, ReservedPred, NoSplitPred, IllegalChar, Cr, BadLang, Generalised, Quoted }
+const SUBJECTS: [&str; 7] = ["http://e/s", "http://e/s?a=1&b='2'", "http://example.org/ns#x", "urn:x:y", "http://e/\u{e9}", "http://e/\u{1F600}/p", "http://e/t"];
+const BNODES: [&str; 8] = ["b", "b1", "a-b", "b.c", "_x", "\u{e9}t", "riog00000001", "\u{10000}a"];
+const BAD_BNODES: [&str; 4] = ["0", "0a", "1.2", "9_"];
+const PREDS: [&str; 20] = ["http://e/p", "http://e/q", "http://example.org/ns#name", "http://e/a%20b", "http://e/1a", "http://e/-a", "http://e/.a", "http://e/a.b", "http://e/a-", "urn:x:y",
+    "http://e/a:b", "http://e/\u{e9}", "http://e/\u{b7}a", "http://e/\u{10000}", "http://e/p?x=1&y='2'z", "http://www.w3.org/1999/02/22-rdf-syntax-ns#type", "http://www.w3.org/1999/02/22-rdf-syntax-ns#_1",
+    "http://www.w3.org/1999/02/22-rdf-syntax-ns#value", "http://e/xmlns", "http://e/x\u{300}y\u{203f}"];
+const NOSPLIT_PREDS: [&str; 7] = ["http://e/", "http://e/123", "urn:1", "http://e/ns#", "http://e/p?x=1", "http://e/p?x=1&y='2'", "http://e/-1."];
+const DATATYPES: [&str; 6] = ["http://www.w3.org/2001/XMLSchema#integer", "http://www.w3.org/1999/02/22-rdf-syntax-ns#XMLLiteral", "http://www.w3.org/1999/02/22-rdf-syntax-ns#HTML", "http://e/dt?a&b'", "http://www.w3.org/2001/XMLSchema#token", "urn:dt"];
+const LANGS: [&str; 7] = ["en", "EN-us", "fr-BE", "de-Latn-DE-1996", "x-private", "zh-Hant", "en-a-bbb"];
+const BAD_LANGS: [&str; 4] = ["e", "abcdefghi", "en-a", "a1"];
+const PIECES: [&str; 40] = ["<", ">", "&", "\"", "'", " ", " ", "  ", "\t", "\n", "\n", "a", "b", "Z", "0", ";", "#", "x", "]", "]]>", "&amp;", "&#32;", "&lt;", "<b>", "</b>", "<!--", "\u{e9}", "\u{1F600}", "\u{10FFFF}", "\u{FFFD}", "\u{D7FF}", "\u{E000}", "\u{85}", "\u{2028}", "\u{A0}", "=", "/", "?", "-", "."];
+const ILLEGAL: [&str; 9] = ["\u{0}", "\u{1}", "\u{8}", "\u{B}", "\u{C}", "\u{E}", "\u{1F}", "\u{FFFE}", "\u{FFFF}"];
+const WS: [&str; 3] = [" ", "\t", "\n"];
+fn gen_text(r: &mut Rng) -> String {
+    let mut s = String::new();
+    if r.chance(1, 4) { for _ in 0..r.range(1, 3) { s.push_str(r.ps(&WS)); } }                    // leading whitespace / newlines
+    loop { for _ in 0..r.below(8) { s.push_str(r.ps(&PIECES)); } if !s.chars().all(is_xml_ws) || s.is_empty() { break; } }
+    if r.chance(1, 4) && !s.is_empty() { for _ in 0..r.range(1, 3) { s.push_str(r.ps(&WS)); } }  // trailing
+    s
+}
+fn gen_pred(r: &mut Rng) -> String {
+    if r.chance(2, 3) { return r.ps(&PREDS).to_string(); }
+    // random path: the split point falls wherever the last non-NCName character is
+    const PC: [&str; 30] = ["a", "b", "Z", "_", "1", "9", "-", ".", ":", "%41", "/", "#", "\u{e9}", "\u{b7}", "\u{300}", "\u{203f}", "~", "!", "$", "(", ")", "*", "+", ",", "=", "@", "&", "'", ";", "\u{10000}"];
+    let mut s = String::from("http://e/"); let mut frag = false;
+    for _ in 0..r.range(1, 7) { let p = r.ps(&PC); if p == "#" { if frag { continue; } frag = true; } s.push_str(p); }
+    if ncname_suffix(&s).is_empty() { s.push('k'); }
+    s
+}
+fn gen_node(r: &mut Rng) -> ST { if r.chance(2, 3) { iri(r.ps(&SUBJECTS)) } else { bnode(r.ps(&BNODES)) } }
+fn gen_lit(r: &mut Rng) -> ST {
+    let t = gen_text(r);
+    match r.below(4) { 0 | 1 => lit_dt(&t, &format!("{XSD}string")), 2 => lit_lang(&t, r.ps(&LANGS)), _ => lit_dt(&t, r.ps(&DATATYPES)) }
+}
+fn gen_obj(r: &mut Rng) -> ST { if r.chance(3, 5) { gen_lit(r) } else { gen_node(r) } }
+
+fn main() {
+    let a = parse_args();
+    let default_hook = std::panic::take_hook();
+    std::panic::set_hook(Box::new(move |info| { if !QUIET.load(Ordering::SeqCst) { default_hook(info) } }));
+    let mut sum = Summary::default();
+    sum.rule = "case = (A, 5 of 6) a graph of 0..5 triples (subjects IRI/blank with repeated and interleaved subjects; predicates from a list of namespace split points plus random paths; objects IRI/blank/literal with text over markup characters, whitespace runs, leading/trailing newlines, TAB, entity look-alikes, ]]>, non-BMP and boundary code points; language tags; datatypes incl. rdf:XMLLiteral), \
+of one flavour: clean, or exactly one kind of input outside a class (whitespace-only literal, blank node label starting with a digit, reserved rdf: name as predicate, predicate without NCName suffix, non-XML character, CR, non-BCP47 tag, generalised triple, quoted triple), serialised with every indentation 0..8; \
+(B, 1 of 6) a raw element text and a raw attribute value (references, stray ampersands, CR/LF/TAB, non-XML characters) fed to the real parser and to the reference reader; \
+non-trivial = A: at least one representable triple and (a literal with a character that needs escaping or whitespace at an end, or a predicate not ending in a plain ASCII name after '/' or '#'), B: the raw string contains '&' or whitespace; distinct = distinct inputs".into();
+    let base = Rng::new(a.seed);
+    let mut cases = vec![]; let mut seen = std::collections::HashSet::new();
+    let range: Vec<usize> = match a.only { Some(i) => vec![i], None => (0..a.n).collect() };
+    let verbose = a.only.is_some();
+    for idx in range {
+        let mut r = base.fork(idx as u64);
+        sum.evaluations += 1;
+        if r.chance(1, 6) {
+            // ---------------- stream B: the readers on raw text / attribute values ----------------
+            const RP: [&str; 34] = ["&", "&", ";", "#", "#x", "lt", "gt", "amp", "apos", "quot", "&lt;", "&gt;", "&amp;", "&apos;", "&quot;", "&#32;", "&#x20;", "&#10;", "&#13;", "&#9;", "&#x1F600;", "&#0;", "&#1;", "&#xD800;", "&#x110000;", "&#65534;",
+                "a", "1", " ", "\n", "\r", "\t", "\u{e9}", "\u{1}"];
+            const RP2: [&str; 8] = ["&#4294967296;", "&#+32;", "&#x;", "&#;", "&#xZ;", "&#00065;", "&#X41;", "&&"];
+            let mut raw = String::new();
+            for _ in 0..r.below(7) { raw.push_str(if r.chance(1, 8) { r.ps(&RP2) } else { r.ps(&RP) }); }
+            let tdoc = format!("<?xml version=\"1.0\" encoding=\"UTF-8\"?><rdf:RDF xmlns:rdf=\"{RDF}\"><rdf:Description rdf:about=\"http://e/s\"><p xmlns=\"http://e/\">{raw}</p></rdf:Description></rdf:RDF>");
+            let adoc = format!("<?xml version=\"1.0\" encoding=\"UTF-8\"?><rdf:RDF xmlns:rdf=\"{RDF}\" xmlns:e=\"http://e/\"><rdf:Description rdf:about=\"http://e/s\" e:p=\"{raw}\"/></rdf:RDF>");
+            let one = |r: Result<Vec<T3>, String>| -> Option<String> { r.ok().and_then(|g| if g.len() == 1 { lex_of(&g[0][2]) } else { None }) };
+            let (t_rio, t_ref) = (one(rio_read(&tdoc)), one(ref_read(&tdoc)));
+            let (a_rio, a_ref) = (one(rio_read(&adoc)), one(ref_read(&adoc)));
+            if verbose { println!("CASE {idx} (readers): raw={raw:?}\n text: rio={t_rio:?} ref={t_ref:?}\n attr: rio={a_rio:?} ref={a_ref:?}"); }
+            // oracle for the readers: where both succeed on CR-free, Char-only, non-whitespace-only input they agree
+            if let (Some(x), Some(y)) = (&t_rio, &t_ref) { if x != y && !raw.contains('\r') && !raw.chars().all(is_xml_ws) { sum.oracle_failures.push((idx.to_string(), format!("RDF/XML reader disagreement: element text {raw:?} is read as {x:?} by RdfXmlParser and as {y:?} by the reference XML reader"))); } }
+            if !raw.is_empty() && raw.chars().all(is_xml_ws) && t_rio.as_deref() != Some("") { sum.oracle_failures.push((idx.to_string(), format!("RDF/XML reader: whitespace-only element text {raw:?} read as {t_rio:?} (expected the known behaviour \"\")"))); }
+            if seen.insert(format!("B{raw}")) && (raw.contains('&') || raw.chars().any(is_xml_ws)) { sum.distinct_nontrivial += 1; }
+            sum.bump("stream:readers"); sum.bump(if t_rio.is_some() { "readers:text-accepted" } else { "readers:text-rejected" });
+            if sum.samples.len() < 2 { sum.samples.push(format!("case {idx}: raw text {raw:?} => RdfXmlParser {t_rio:?}, reference reader {t_ref:?}")); }
+            cases.push((idx, format!("text_ok {r} {} && xtext_ok {r} {} && attr_ok {r} {} && xattr_ok {r} {}", c_optstr(&t_rio), c_optstr(&t_ref), c_optstr(&a_rio), c_optstr(&a_ref), r = coq_str(&raw))));
+            continue;
+        }
+        // ---------------- stream A: graphs ----------------
+        let flavour = match r.below(20) { 0..=10 => Flavour::Clean, 11 => Flavour::WsOnly, 12 => Flavour::BnodeDigit, 13 => Flavour::ReservedPred, 14 => Flavour::NoSplitPred, 15 => Flavour::IllegalChar, 16 => Flavour::Cr, 17 => Flavour::BadLang, 18 => Flavour::Generalised, _ => Flavour::Quoted };
+        let n = if r.chance(1, 25) { 0 } else { r.range(1, 5) };
+        let mut g: Vec<T3> = vec![];
+        let mut prev_s: Option<ST> = None;
+        for _ in 0..n {
+            let s = match &prev_s { Some(p) if r.chance(1, 2) => p.clone(), _ => gen_node(&mut r) };
+            prev_s = Some(s.clone());
+            g.push([s, iri(&gen_pred(&mut r)), gen_obj(&mut r)]);
+        }
+        if r.chance(1, 12) && !g.is_empty() { let d = g[r.below(g.len())].clone(); g.push(d); } // duplicate triple
+        // inject the flavour's single out-of-class ingredient
+        let k = if g.is_empty() { 0 } else { r.below(g.len()) };
+        let some_s = iri("http://e/s"); let some_p = iri("http://e/p");
+        if g.is_empty() && flavour != Flavour::Clean { g.push([some_s.clone(), some_p.clone(), some_s.clone()]); }
+        match flavour {
+            Flavour::Clean => {}
+            Flavour::WsOnly => { let mut w = String::new(); for _ in 0..r.range(1, 3) { w.push_str(r.ps(&WS)); } g[k][2] = if r.chance(1, 3) { lit_lang(&w, "en") } else if r.chance(1, 2) { lit_dt(&w, r.ps(&DATATYPES)) } else { lit_dt(&w, &format!("{XSD}string")) }; }
+            Flavour::BnodeDigit => { let b = bnode(r.ps(&BAD_BNODES)); if r.chance(1, 2) { g[k][0] = b } else { g[k][2] = b } }
+            Flavour::ReservedPred => { g[k][1] = iri(&format!("{RDF}{}", r.ps(&RESERVED))); }
+            Flavour::NoSplitPred => { g[k][1] = iri(r.ps(&NOSPLIT_PREDS)); }
+            Flavour::IllegalChar => { let t = format!("{}{}{}", gen_text(&mut r), r.ps(&ILLEGAL), gen_text(&mut r)); g[k][2] = lit_dt(&t, &format!("{XSD}string")); }
+            Flavour::Cr => { let t = format!("a{}{}b", gen_text(&mut r), r.ps(&["\r", "\r\n", "\r\r", "\n\r"])); g[k][2] = if r.chance(1, 2) { lit_dt(&t, &format!("{XSD}string")) } else { lit_lang(&t, "en") }; }
+            Flavour::BadLang => { g[k][2] = lit_lang("x y", r.ps(&BAD_LANGS)); }
+            Flavour::Generalised => { let t: T3 = match r.below(4) { 0 => [lit_dt("1", &format!("{XSD}string")), some_p.clone(), some_s.clone()], 1 => [some_s.clone(), bnode("b"), some_s.clone()], 2 => [some_s.clone(), some_p.clone(), var("v")], _ => [var("v"), some_p.clone(), lit_lang("x", "en")] }; let at = r.below(g.len() + 1); g.insert(at, t); }
+            Flavour::Quoted => { let q = triple(some_s.clone(), some_p.clone(), if r.chance(1, 4) { var("v") } else { lit_dt("x", &format!("{XSD}string")) }); let t: T3 = if r.chance(1, 2) { [q, some_p.clone(), some_s.clone()] } else { [some_s.clone(), some_p.clone(), q] }; let at = r.below(g.len() + 1); g.insert(at, t); }
+        }
+        let expected: Vec<T3> = g.iter().filter(|t| representable(t)).cloned().collect();
+        // the class in which the property promises success without loss
+        let quoted = g.iter().any(has_quoted);
+        let text_legal = expected.iter().all(|t| lex_of(&t[2]).map_or(true, |l| l.chars().all(is_xml_char)));
+        let preds_ok = expected.iter().all(|t| { let p = t[1].iri().unwrap(); let p = p.as_str(); !ncname_suffix(p).is_empty() && !RESERVED.iter().any(|l| p == format!("{RDF}{l}")) });
+        let in_class = !quoted && text_legal && preds_ok;
+        let what = format!("flavour {flavour:?}, graph {g:?}");
+        let describe = |k: &str, detail: String| -> String {
+            let head = match flavour {
+                Flavour::WsOnly => "RDF/XML whitespace-only literal", Flavour::BnodeDigit => "RDF/XML blank node label that is not an NCName",
+                Flavour::ReservedPred => "RDF/XML reserved rdf: name used as predicate", Flavour::NoSplitPred => "RDF/XML predicate without NCName local part",
+                Flavour::IllegalChar => "RDF/XML character outside the XML Char production", Flavour::Cr => "RDF/XML carriage return in a literal",
+                Flavour::BadLang => "RDF/XML language tag that is not well-formed BCP47", _ => "RDF/XML round trip",
+            };
+            format!("{head}: {k}: {detail}; {what}")
+        };
+        // run every indentation
+        let mut fails: Vec<String> = vec![];
+        let mut runs: Vec<(Ser, Option<Result<Vec<T3>, String>>, Option<Result<Vec<T3>, String>>)> = vec![];
+        for ind in 0..=8usize {
+            let s = serialize(&g, ind);
+            let (pr, rr) = match &s { Ser::Doc(d) => (Some(rio_read(d)), Some(ref_read(d))), _ => (None, None) };
+            runs.push((s, pr, rr));
+        }
+        for (ind, (s, pr, rr)) in runs.iter().enumerate() {
+            match s {
+                Ser::Panic => fails.push(describe("panic", format!("serialize_triples panicked (indentation {ind})"))),
+                Ser::Err(e) => { if in_class { fails.push(describe("serialisation failed inside the guaranteed class", format!("indentation {ind}: {e}"))); } }
+                Ser::Doc(d) => {
+                    match rr.as_ref().unwrap() {
+                        Err(e) => fails.push(describe("the document is not a well-formed namespace-conformant RDF/XML document", format!("indentation {ind}: reference reader: {e}; document {d:?}"))),
+                        Ok(back) => if !iso(&expected, back) { fails.push(describe("the document does not denote the graph (reference XML reader)", format!("indentation {ind}: read {back:?}, expected {expected:?}; document {d:?}"))); }
+                    }
+                    match pr.as_ref().unwrap() {
+                        Err(e) => fails.push(describe("RdfXmlParser rejects the serialiser's output", format!("indentation {ind}: {e}; document {d:?}"))),
+                        Ok(back) => if !iso(&expected, back) { fails.push(describe("RdfXmlParser reads back a different graph", format!("indentation {ind}: read {back:?}, expected {expected:?}; document {d:?}"))); }
+                    }
+                    // indentation must not change the outcome
+                    if let (Ser::Doc(_), Some(p0)) = (&runs[0].0, &runs[0].1) {
+                        let same = match (p0, pr.as_ref().unwrap()) { (Ok(x), Ok(y)) => x.len() == y.len() && x.iter().zip(y).all(|(u, v)| (0..3).all(|i| Term::eq(&u[i], &v[i]))), (Err(_), Err(_)) => true, _ => false };
+                        if !same { fails.push(format!("RDF/XML indentation changes the parsed result: indentation 0 gives {p0:?}, indentation {ind} gives {:?}; {what}", pr.as_ref().unwrap())); }
+                    } else { fails.push(format!("RDF/XML indentation changes the outcome: indentation 0 failed, indentation {ind} succeeded; {what}")); }
+                }
+            }
+            if !matches!(s, Ser::Doc(_)) && matches!(runs[0].0, Ser::Doc(_)) { fails.push(format!("RDF/XML indentation changes the outcome: indentation 0 succeeded, indentation {ind} failed; {what}")); }
+        }
+        if let Some(f) = fails.first() { let extra = fails.len() - 1; sum.oracle_failures.push((idx.to_string(), if extra > 0 { format!("{f} (+{extra} more findings of this case over indentations 0..8)") } else { f.clone() })); }
+        // distribution
+        sum.bump(&format!("flavour:{flavour:?}"));
+        sum.bump(match &runs[0].0 { Ser::Doc(_) => "serialise:ok", Ser::Err(_) => "serialise:error", Ser::Panic => "serialise:panic" });
+        if let Some(Ok(_)) = &runs[0].1 { sum.bump("rio-reparse:ok"); } else if let Some(Err(_)) = &runs[0].1 { sum.bump("rio-reparse:error"); }
+        if !fails.is_empty() { sum.bump("oracle:failing-case"); }
+        for t in &expected { match &t[2] { SimpleTerm::LiteralLanguage(..) => sum.bump("object:lang-literal"), SimpleTerm::LiteralDatatype(..) => sum.bump("object:literal"), SimpleTerm::BlankNode(_) => sum.bump("object:blank"), _ => sum.bump("object:iri") } if matches!(t[0], SimpleTerm::BlankNode(_)) { sum.bump("subject:blank"); } }
+        let nontrivial = !expected.is_empty() && expected.iter().any(|t| lex_of(&t[2]).map_or(false, |l| l.contains(['<', '>', '&', '"', '\'', '\r']) || l.starts_with(is_xml_ws) || l.ends_with(is_xml_ws))
+            || { let p = t[1].iri().unwrap(); let p = p.as_str().to_string(); let loc = ncname_suffix(&p); loc.is_empty() || !loc.is_ascii() || !matches!(p[..p.len() - loc.len()].chars().last(), Some('/' | '#')) });
+        if seen.insert(format!("A{g:?}")) && nontrivial { sum.distinct_nontrivial += 1; }
+        if sum.samples.len() < 6 && nontrivial && matches!(flavour, Flavour::Clean | Flavour::WsOnly) { if let Ser::Doc(d) = &runs[2].0 { sum.samples.push(format!("case {idx}: {what} => indentation 2: {d:?}")); } }
+        if verbose { println!("CASE {idx}: {what}\n in_class={in_class} expected={expected:?}"); for (ind, (s, pr, rr)) in runs.iter().enumerate() { match s { Ser::Doc(d) => println!(" [{ind}] doc={d:?}\n      rio={pr:?}\n      ref={rr:?}"), Ser::Err(e) => println!(" [{ind}] error {e}"), Ser::Panic => println!(" [{ind}] PANIC") } } for f in &fails { println!(" ORACLE: {f}"); } }
+        // Coq: the exact document for one indentation (0 on even cases, a random 1..8 on odd ones),
+        // the outcome and both parses for both
+        let k1 = r.range(1, 8);
+        let rio_modelled = flavour != Flavour::BadLang; // oxilangtag's validation is not modelled
+        let lower_tag = |t: &T3| -> T3 { let mut t = t.clone(); if let SimpleTerm::LiteralLanguage(l, tag) = &t[2] { t[2] = lit_lang(l, &tag.as_str().to_ascii_lowercase()); } t };
+        let std_parse: Vec<String> = expected.iter().map(|t| c_t3(&lower_tag(t))).collect();
+        let c_obs_parse = |strict: bool, ind: usize, pr: &Result<Vec<T3>, String>| -> String {
+            match pr { Ok(b) if b.iter().map(c_t3).collect::<Vec<_>>() == std_parse => format!("parse_std {} {ind} g", coq_bool(strict)), _ => format!("parse_ok {} {ind} g {}", coq_bool(strict), c_parse(pr)) }
+        };
+        let mut parts = vec![];
+        for ind in [0usize, k1] {
+            let (s, pr, rr) = &runs[ind];
+            let with_doc = (ind == 0) == (idx % 2 == 0);
+            let obs = match s { Ser::Doc(d) => if with_doc { format!("(ObsDoc {})", coq_str(d)) } else { "ObsSomeDoc".into() }, Ser::Err(e) if e.contains("named or blank subject") => "ObsErrSubj".into(), Ser::Err(e) if e.contains("named, blank or literal object") => "ObsErrObj".into(), _ => "ObsOther".into() };
+            parts.push(format!("ser_ok {ind} g {obs}"));
+            if let (Some(pr), Some(rr)) = (pr, rr) {
+                if rio_modelled { parts.push(c_obs_parse(false, ind, pr)); }
+                parts.push(c_obs_parse(true, ind, rr));
+            }
+        }
+        cases.push((idx, format!("let g := {} in {}", c_graph(&g), parts.join(" && "))));
+    }
+    if a.only.is_none() {
+        let header = "From Sophia.C18 Require Import Model.\n";
+        sum.shards = write_shards(&a.out, header, &cases, a.shards);
+        sum.extra.push(("coq_cases".into(), cases.len().to_string()));
+        std::fs::write(format!("{}/summary.json", a.out), sum.to_json()).unwrap();
+    }
+    println!("c18: {} cases, {} distinct non-trivial, {} oracle failures", sum.evaluations, sum.distinct_nontrivial, sum.oracle_failures.len());
 }
